@@ -30,8 +30,8 @@ Events that cannot occur in the current phase leave the state unchanged.
 
 ## Quirks kept
 * `retry_times_opt` belongs to the connection, not to a task: tasks that arrive on a connection
-  opened for a retry inherit its count, and a connection error with an empty queue still hands
-  `times + 1` (with no tasks) to the next connection.
+  opened for a retry inherit its count.  A connection error with an empty queue yields no retry
+  state at all (commit 24d4705), so idle disconnects do not consume the budget.
 * a reply with no task waiting, or a packet written when `tasks` is shorter than `packets`
   (possible after an unsolicited reply), is `BackendError::InvalidState` = connection error.
 * a `Some(Err(e))` stream item (decode error) is *handed to the front task* through the handler
@@ -148,7 +148,9 @@ def deliver : Task → Item → Out
 def connErr (s : St) (timesOpt : Option Nat) (k : WErr) : St × Out :=
   let times := timesOpt.getD 0
   let s' := { s with phase := .connecting, tasks := [], packets := [], retryTimes := none }
-  if times ≥ MAX_BACKEND_RETRY then
+  -- `if tasks.is_empty() { return None; }` (commit 24d4705): nothing to retry, no count carried over
+  if s.tasks.isEmpty then ({ s' with retry := none }, [])
+  else if times ≥ MAX_BACKEND_RETRY then
     ({ s' with retry := none },
      answerAll s.tasks (.err (match k with | .io => .io | .other => .backend)))
   else
